@@ -17,7 +17,7 @@ VERIF = os.path.dirname(os.path.dirname(os.path.abspath(__file__)))
 sys.path.insert(0, VERIF)
 warnings.filterwarnings("ignore")
 
-ALL = ["C01", "C02", "C05", "C06", "C07", "C08", "C09", "C11", "C12", "C13", "C17", "C19"]
+ALL = ["C01", "C02", "C03", "C04", "C05", "C06", "C07", "C08", "C09", "C10", "C11", "C12", "C13", "C16", "C17", "C19"]  # C20 spawns child interpreters (scratch paths differ per run)
 
 
 def digests(name, lo, hi, seed, tier="quick"):
